@@ -119,6 +119,112 @@ def _sig(cfg, text, obs):
     }
 
 
+# ------------------------------------------------------------------ buffered start of a stream (StreamBuf.tla)
+BUF_K = 1
+BUF_CFG = {"prefix": "p", "suffix": "s", "stops": ["\ns"]}
+
+
+async def _buf_one(text, cuts):
+    """enable_buffering -> tokens -> wait_top_k_nonempty_lines(K) -> set_pattern / stop -> disable_buffering, with a
+    consumer that keeps up (the loop is yielded to after every token); virtual scheduling only, no wall clock."""
+    sys_path_repo()
+    from langchain_core.outputs import GenerationChunk
+    from nemoguardrails.streaming import StreamingHandler
+    h = StreamingHandler()
+    await h.enable_buffering()
+    res = {}
+
+    async def consumer():
+        res["top"] = await h.wait_top_k_nonempty_lines(BUF_K)
+        h.set_pattern(prefix=BUF_CFG["prefix"], suffix=BUF_CFG["suffix"])
+        h.stop = list(BUF_CFG["stops"])
+        await h.disable_buffering()
+
+    ct = asyncio.ensure_future(consumer())
+    for _ in range(3):
+        await asyncio.sleep(0)      # the consumer is waiting before the first token arrives (it announces K when it starts)
+    prev = 0
+    for c in list(cuts) + [len(text)]:
+        await h.on_llm_new_token(text[prev:c], chunk=GenerationChunk(text=text[prev:c]), run_id=None)
+        prev = c
+        for _ in range(4):
+            await asyncio.sleep(0)
+    for _ in range(50):
+        if ct.done():
+            break
+        await asyncio.sleep(0)
+    hang = not ct.done()
+    if hang:
+        ct.cancel()
+    elif ct.exception() is not None:
+        return ["EXC:%s" % type(ct.exception()).__name__, str(ct.exception())[:80], ""], False
+    else:
+        await h.on_llm_end(None, run_id=None)
+    out = []
+    while not h.queue.empty():
+        x = h.queue.get_nowait()
+        if x:
+            out.append(x)
+    return [res.get("top") if res.get("top") is not None else "?", "".join(out), h.completion], hang
+
+
+def sys_path_repo():
+    import sys
+    from harness import REPO
+    if REPO not in sys.path:
+        sys.path.insert(0, REPO)
+
+
+def _buf_worker(texts):
+    async def go():
+        out = []
+        for t in texts:
+            n = len(t)
+            obs, hang = {}, False
+            for mask in range(1 << (n - 1)):
+                cuts = [i + 1 for i in range(n - 1) if mask >> i & 1]
+                o, hg = await _buf_one(t, cuts)
+                hang = hang or hg
+                obs.setdefault(json.dumps(o), cuts)
+            out.append({"t": list(t), "obs": [[list(x) for x in json.loads(k)] for k in obs], "cuts": list(obs.values()), "hang": hang})
+        return out
+    return asyncio.run(go())
+
+
+def buffered_part(ctx):
+    maxlen = 6 if ctx.quick else 7
+    wd = ctx.sub("buf_emit")
+    r = tlc.run("StreamBuf.tla", 'CONSTANTS Mode = "emit"\nMaxLen = %d\nK = %d\nSPECIFICATION Spec\nINVARIANT EmitText\n' % (maxlen, BUF_K),
+                wd, spec_dirs=[SPEC_DIR], workers=1, timeout=3000)
+    texts = sorted("".join(p["t"]) for p in r.printed if "t" in p)
+    jobs = [texts[i::64] for i in range(64)]
+    cases = []
+    with mp.Pool(16) as pool:
+        for res in pool.imap_unordered(_buf_worker, [j for j in jobs if j]):
+            cases += res
+    cases.sort(key=lambda c: c["t"])
+    jd = ctx.sub("buf_judge")
+    jf = os.path.join(jd, "obs.json")
+    with open(jf, "w") as f:
+        json.dump([{"t": c["t"], "obs": c["obs"], "hang": c["hang"]} for c in cases], f)
+    jr = tlc.run("StreamBuf.tla", 'CONSTANTS Mode = "judge"\nMaxLen = 1\nK = %d\nSPECIFICATION Spec\nINVARIANT Verdict\n' % BUF_K,
+                 jd, spec_dirs=[SPEC_DIR], env={"TRACE_FILE": jf}, workers=1, timeout=3000)
+    verd = {p["n"]: p for p in jr.printed if "n" in p}
+    assert len(verd) == len(cases), "StreamBuf judge: %d verdicts for %d texts" % (len(verd), len(cases))
+    runs = sum(1 << (len(c["t"]) - 1) for c in cases)
+    for i, c in enumerate(cases, start=1):
+        v = verd[i]
+        if v["inv"] and v["lines"] and v["ideal"]:
+            continue
+        kind = "chunking-dependent" if not v["inv"] else "not-ideal"
+        ctx.violation(kind, "buffered start (first %d line(s) taken, then prefix %r suffix %r stop %r): text %r observed (lines, delivered, completion; first chunking) %s, expected lines %r and the rest %r without prefix / suffix, cut at the stop" % (
+            BUF_K, BUF_CFG["prefix"], BUF_CFG["suffix"], BUF_CFG["stops"], "".join(c["t"]), [("".join(o[0]), "".join(o[1]), "".join(o[2]), cu) for o, cu in zip(c["obs"], c["cuts"])][:4],
+            "".join(v["want"]["lines"]), "".join(v["want"]["rest"])),
+            {"buffered": True, "text": "".join(c["t"]), "observed": c["obs"], "sig": {"mode": "buffered", "kind": kind, "hang": c["hang"]}})
+    ctx.log("buffered start: %d texts with >= %d counting lines (TLC), %d handler runs over all chunkings, judged by StreamBuf" % (len(cases), BUF_K + 1, runs))
+    return {"texts": len(cases), "runs": runs, "states": r.distinct + jr.distinct, "transitions": r.generated + jr.generated}
+
+
 def run(ctx):
     maxlen = 6 if ctx.quick else 8
     # ---- 1. universe + StreamImpl predictions from TLC
@@ -285,15 +391,17 @@ def run(ctx):
     ctx.log("design verdict StreamImpl vs StreamIdeal: %s" % design)
     impl_bad = bool(ctx.violations)
     design_bad = any(v == "violated" for v in design.values())
+    buf = buffered_part(ctx)
     if design_bad != impl_bad and drift == 0:
         ctx.note("design verdict (%s) and implementation verdict (%s) differ" % (design, impl_bad))
 
     return {
         "level": LEVEL,
         "coverage": {
-            "states": states + emit_states, "transitions": trans,
-            "traces_validated_against_impl": len(cases) + len(traces),
-            "evaluations": runs, "distinct_nontrivial": nontrivial,
+            "states": states + emit_states + buf["states"], "transitions": trans + buf["transitions"],
+            "traces_validated_against_impl": len(cases) + len(traces) + buf["texts"],
+            "evaluations": runs + buf["runs"], "distinct_nontrivial": nontrivial + buf["texts"],
+            "buffered_start": buf,
             "rule": "every text over each configuration's alphabet up to length %d x every chunking (2^(n-1)) through "
                     "the real StreamingHandler; a case is one (config,text) outcome set; non-trivial = text length >= 2 and "
                     "some prefix/suffix/stop configured; thorough adds long texts with sampled chunkings" % maxlen,
@@ -305,7 +413,7 @@ def run(ctx):
         },
         "assumptions": [
             "tokens are non-empty strings delivered through on_llm_new_token, end of stream through on_llm_end (the integration path used by generation.py)",
-            "no pipe_to / buffering mode (those are exercised by C17's pipelines)",
+            "buffered start (StreamBuf): texts with at least K+1 counting lines, a consumer that keeps up (the loop is yielded to after every token), end of stream after the buffering was switched off; no pipe_to",
             "alphabets of 2-4 symbols built from the characters of prefix/suffix/stop plus a filler",
             "suffix-removal vs stop-cut order is not fixed by the statement: both orders are accepted by the judge",
         ],
